@@ -44,12 +44,12 @@ MUTATING_KINDS = ("open-w", "remove", "write", "copystat")
 # Steps that change the visible file system when they take effect (data
 # writes are WRITE_KINDS): what "nothing was touched before the fault" means.
 EFFECT_KINDS = ("open-w", "remove", "copystat", "rename", "chmod", "utime",
-                "truncate", "mkdir", "rmdir")
+                "truncate", "mkdir", "rmdir", "symlink")
 FAULTABLE_KINDS = (
     "open-r", "open-w", "read", "write", "remove", "copystat",
     "tmp-create", "tmp-write", "tmp-read", "tmp-seek", "stdin-read",
     "rename", "chmod", "utime", "truncate", "fsync", "mkdir", "rmdir",
-    "close-w",
+    "close-w", "symlink",
 )
 FD_BASE = 100000        # simulated descriptors live far above real ones
 TMP_DIR = "/sim/tmp"    # the simulated system temporary directory
@@ -422,7 +422,10 @@ class World:
 
     def __init__(self, files=None, *, unreadable=(), dirs=(), stdin=b"",
                  tty=True, stdin_chunks=None, knobs=None, faults=(),
-                 peer=None, secrets_seed=1):
+                 peer=None, secrets_seed=1, links=None):
+        # symbolic links (last path component only): name -> target
+        self.links = dict(links or {})
+        self.frozen_links = None
         self.fs = {}
         for path, data in (files or {}).items():
             if isinstance(data, str):
@@ -533,6 +536,7 @@ class World:
         if not self.frozen:
             self.frozen = True
             self.frozen_fs = {p: bytes(d) for p, d in self.fs.items()}
+            self.frozen_links = dict(self.links)
 
     # ------------------------------------------------------------------
     # file system seams
@@ -555,12 +559,25 @@ class World:
             path = path.decode("utf-8", "surrogateescape")
         return posixpath.normpath(path)
 
+    def follow(self, path, links=None):
+        """Resolve a symbolic link in the last component (like open(2))."""
+        links = self.links if links is None else links
+        path = self.norm(path)
+        for _ in range(9):
+            target = links.get(path)
+            if target is None:
+                return path
+            path = posixpath.normpath(
+                target if target.startswith("/")
+                else posixpath.join(posixpath.dirname(path), target))
+        raise OSError(errno.ELOOP, "Too many levels of symbolic links", path)
+
     def sim_open(self, path, mode="r", buffering=-1, encoding=None,
                  errors=None, newline=None, closefd=True, opener=None):
         if isinstance(path, int):
             return self.fd_stream(path, mode, buffering, encoding, errors,
                                   newline)
-        path = self.norm(path)
+        path = self.follow(path)
         binary = "b" in mode
         writing = any(c in mode for c in "wax+")
         if path in self.dirs:
@@ -633,7 +650,9 @@ class World:
         import stat as statmod
         if not self.owns(path):
             return _REAL_STAT(path, *args, **kwargs)
-        path = self.norm(path)
+        if kwargs.get("follow_symlinks", True) is False:
+            return self.lstat(path)
+        path = self.follow(path)
         self.step("stat", path, 0, faultable=False)
         if path in self.dirs:
             return os.stat_result((statmod.S_IFDIR | 0o755, 0, 0, 1, 0, 0, 0,
@@ -642,6 +661,49 @@ class World:
             raise FileNotFoundError(errno.ENOENT,
                                     "No such file or directory", path)
         return self._stat_of(path)
+
+    def lstat(self, path, *args, **kwargs):
+        import stat as statmod
+        path = self.norm(path)
+        if path in self.links:
+            self.step("stat", path, 0, faultable=False)
+            extra = {"st_atime": 1000.0, "st_mtime": 1000.0,
+                     "st_ctime": 1000.0, "st_atime_ns": 1000 * 10 ** 9,
+                     "st_mtime_ns": 1000 * 10 ** 9,
+                     "st_ctime_ns": 1000 * 10 ** 9, "st_blksize": 4096,
+                     "st_blocks": 0, "st_rdev": 0}
+            return os.stat_result((statmod.S_IFLNK | 0o777, 0, 0, 1, 0, 0,
+                                   len(self.links[path]), 1000, 1000, 1000),
+                                  extra)
+        return self.stat(path)
+
+    def islink(self, path):
+        path = self.norm(path)
+        self.step("stat", path, 0, faultable=False)
+        return path in self.links
+
+    def lexists(self, path):
+        if self.norm(path) in self.links:
+            self.step("stat", self.norm(path), 0, faultable=False)
+            return True
+        return self.exists(path)
+
+    def readlink(self, path, **_kwargs):
+        path = self.norm(path)
+        self.step("stat", path, 0, faultable=False)
+        if path not in self.links:
+            raise OSError(errno.EINVAL, "Invalid argument", path)
+        return self.links[path]
+
+    def symlink(self, src, dst, *_args, **_kwargs):
+        dst = self.norm(dst)
+        act = self.step("symlink", dst, 0)
+        if dst in self.links or dst in self.fs or dst in self.dirs:
+            raise FileExistsError(errno.EEXIST, "File exists", dst)
+        self._check_parent(dst)
+        if not (self.frozen or self.dead):
+            self.links[dst] = os.fspath(src)
+        self._after(act)
 
     def _stat_of(self, path):
         import stat as statmod
@@ -666,21 +728,30 @@ class World:
     def exists(self, path):
         if not self.owns(path):
             return os.path.exists(path)
-        path = self.norm(path)
+        try:
+            path = self.follow(path)
+        except OSError:
+            return False
         self.step("stat", path, 0, faultable=False)
         return path in self.fs or path in self.dirs
 
     def isfile(self, path):
         if not self.owns(path):
             return os.path.isfile(path)
-        path = self.norm(path)
+        try:
+            path = self.follow(path)
+        except OSError:
+            return False
         self.step("stat", path, 0, faultable=False)
         return path in self.fs
 
     def access(self, path, mode):
         if not self.owns(path):
             return os.access(path, mode)
-        path = self.norm(path)
+        try:
+            path = self.follow(path)
+        except OSError:
+            return False
         self.step("stat", path, 0, faultable=False)
         if path in self.dirs:
             return True
@@ -699,6 +770,11 @@ class World:
             raise PermissionError(errno.EACCES, "outside the simulation", path)
         path = self.norm(path)
         act = self.step("remove", path, 0)
+        if path in self.links:
+            if not (self.frozen or self.dead):
+                del self.links[path]
+            self._after(act)
+            return
         if path in self.dirs:
             raise IsADirectoryError(errno.EISDIR, "Is a directory", path)
         if path not in self.fs:
@@ -709,14 +785,21 @@ class World:
             self.mtime.pop(path, None)
         self._after(act)
 
-    def copy2(self, src, dst):
+    def _copy_link(self, src, dst):
+        """follow_symlinks=False on a link: make the same link again."""
+        self.symlink(self.links[src], dst)
+        return dst
+
+    def copy2(self, src, dst, *, follow_symlinks=True):
         """shutil.copy2: open src, open dst (truncating), pump, copystat."""
         src = self.norm(src)
         dst = self.norm(dst)
-        if dst in self.dirs:
+        if self.follow(dst) in self.dirs:
             # shutil.copy2 copies INTO an existing directory
-            dst = dst + "/" + posixpath.basename(src)
-        if src == dst:
+            dst = self.follow(dst) + "/" + posixpath.basename(src)
+        if not follow_symlinks and src in self.links:
+            return self._copy_link(src, dst)
+        if self.follow(src) == self.follow(dst):
             raise shutil.SameFileError(
                 "{!r} and {!r} are the same file".format(src, dst))
         self.flags.add("copy2")
@@ -731,7 +814,8 @@ class World:
                     fdst.flush()
         act = self.step("copystat", dst, 0)
         if not (self.frozen or self.dead):
-            self.mtime[dst] = self.mtime.get(src, 1000)
+            self.mtime[self.follow(dst)] = self.mtime.get(self.follow(src),
+                                                          1000)
         self._after(act)
         return dst
 
@@ -757,7 +841,11 @@ class World:
             raise FileNotFoundError(errno.ENOENT, "No such directory", path)
 
     def os_open(self, path, flags, mode=0o777, *, dir_fd=None):
-        path = self.norm(path)
+        if flags & getattr(os, "O_NOFOLLOW", 0) and \
+                self.norm(path) in self.links:
+            raise OSError(errno.ELOOP, "Too many levels of symbolic links",
+                          self.norm(path))
+        path = self.follow(path)
         acc = flags & os.O_ACCMODE
         writing = acc in (os.O_WRONLY, os.O_RDWR)
         if path in self.dirs:
@@ -876,7 +964,7 @@ class World:
     def truncate(self, path, size):
         if isinstance(path, int):
             return self.os_ftruncate(path, size)
-        path = self.norm(path)
+        path = self.follow(path)
         act = self.step("truncate", path, size)
         if path not in self.fs:
             raise FileNotFoundError(errno.ENOENT,
@@ -896,6 +984,19 @@ class World:
         src = self.norm(src)
         dst = self.norm(dst)
         act = self.step("rename", dst, 0)
+        if src in self.links:
+            # the link itself moves; a link at the destination is replaced
+            if dst in self.dirs and dst not in self.links:
+                raise IsADirectoryError(errno.EISDIR, "Is a directory", dst)
+            if not (self.frozen or self.dead) and src != dst:
+                self.fs.pop(dst, None)
+                self.links[dst] = self.links.pop(src)
+            self._after(act)
+            return
+        if dst in self.links and src in self.fs:
+            # rename(2) replaces the link, it does not write through it
+            if not (self.frozen or self.dead):
+                del self.links[dst]
         if src in self.dirs:
             if dst in self.fs:
                 raise NotADirectoryError(errno.ENOTDIR, "Not a directory",
@@ -931,7 +1032,7 @@ class World:
     def chmod(self, path, mode, **_kwargs):
         if isinstance(path, int):
             path = self._fd(path)["path"]
-        path = self.norm(path)
+        path = self.follow(path)
         act = self.step("chmod", path, 0)
         if path not in self.fs and path not in self.dirs:
             raise FileNotFoundError(errno.ENOENT,
@@ -943,7 +1044,7 @@ class World:
     def utime(self, path, times=None, *, ns=None, **_kwargs):
         if isinstance(path, int):
             path = self._fd(path)["path"]
-        path = self.norm(path)
+        path = self.follow(path)
         act = self.step("utime", path, 0)
         if path not in self.fs and path not in self.dirs:
             raise FileNotFoundError(errno.ENOENT,
@@ -1011,10 +1112,12 @@ class World:
             self.dirs.discard(path)
         self._after(act)
 
-    def copyfile(self, src, dst, **_kwargs):
+    def copyfile(self, src, dst, *, follow_symlinks=True, **_kwargs):
         src = self.norm(src)
         dst = self.norm(dst)
-        if src == dst:
+        if not follow_symlinks and src in self.links:
+            return self._copy_link(src, dst)
+        if self.follow(src) == self.follow(dst):
             raise shutil.SameFileError(
                 "{!r} and {!r} are the same file".format(src, dst))
         with self.sim_open(src, "rb") as fsrc:
@@ -1027,13 +1130,19 @@ class World:
                     fdst.flush()
         return dst
 
-    def copymode(self, src, dst, **_kwargs):
-        src = self.norm(src)
+    def copymode(self, src, dst, *, follow_symlinks=True, **_kwargs):
+        if not follow_symlinks and self.norm(src) in self.links:
+            return
+        src = self.follow(src)
         self.chmod(dst, self.modes.get(src, 0o644))
 
-    def copystat(self, src, dst, **_kwargs):
-        src = self.norm(src)
-        dst = self.norm(dst)
+    def copystat(self, src, dst, *, follow_symlinks=True, **_kwargs):
+        if not follow_symlinks and (self.norm(src) in self.links
+                                    or self.norm(dst) in self.links):
+            self.step("copystat", self.norm(dst), 0, faultable=False)
+            return
+        src = self.follow(src)
+        dst = self.follow(dst)
         act = self.step("copystat", dst, 0)
         if src not in self.fs or dst not in self.fs:
             raise FileNotFoundError(errno.ENOENT,
@@ -1046,12 +1155,12 @@ class World:
                 self.modes.pop(dst, None)
         self._after(act)
 
-    def copy(self, src, dst, **_kwargs):
+    def copy(self, src, dst, *, follow_symlinks=True, **_kwargs):
         dst = self.norm(dst)
-        if dst in self.dirs:
-            dst = dst + "/" + posixpath.basename(self.norm(src))
-        self.copyfile(src, dst)
-        self.copymode(src, dst)
+        if self.follow(dst) in self.dirs:
+            dst = self.follow(dst) + "/" + posixpath.basename(self.norm(src))
+        self.copyfile(src, dst, follow_symlinks=follow_symlinks)
+        self.copymode(src, dst, follow_symlinks=follow_symlinks)
         return dst
 
     def move(self, src, dst, **_kwargs):
@@ -1084,8 +1193,22 @@ class World:
     # snapshots
     # ------------------------------------------------------------------
     def snapshot(self):
+        """
+        Path -> bytes.  A symbolic link is listed with the bytes that reading
+        it gives (what the user sees under that name); a dangling one is not
+        listed.
+        """
         src = self.frozen_fs if self.frozen else self.fs
-        return {p: bytes(d) for p, d in src.items()}
+        links = self.frozen_links if self.frozen else self.links
+        view = {p: bytes(d) for p, d in src.items()}
+        for name in links:
+            try:
+                real = self.follow(name, links)
+            except OSError:
+                continue
+            if real in src:
+                view[name] = bytes(src[real])
+        return view
 
 
 # ----------------------------------------------------------------------
@@ -1188,7 +1311,7 @@ def _patched(world, tool_mod, argv0, argv):
 
     import tempfile as real_tempfile
     unmodelled = [
-        (os, "link", 2), (os, "symlink", 2), (os, "readlink", 1),
+        (os, "link", 2),
         (os, "scandir", 1), (os, "chown", 1), (os, "lchown", 1),
         (os, "mkfifo", 1), (os, "mknod", 1), (os, "chdir", 1),
         (os, "statvfs", 1), (os, "getxattr", 1), (os, "setxattr", 1),
@@ -1198,7 +1321,9 @@ def _patched(world, tool_mod, argv0, argv):
         (shutil, "disk_usage", 1), (shutil, "chown", 1),
     ]
     surface = [
-        (os, "lstat", world.stat, 1), (os, "chmod", world.chmod, 1),
+        (os, "lstat", world.lstat, 1), (os, "chmod", world.chmod, 1),
+        (os, "readlink", world.readlink, 1), (os, "symlink", world.symlink, 2),
+        (posixpath, "islink", world.islink, 1),
         (os, "utime", world.utime, 1), (os, "rename", world.rename, 2),
         (os, "replace", world.rename, 2), (os, "remove", world.remove, 1),
         (os, "unlink", world.remove, 1), (os, "open", world.os_open, 1),
@@ -1211,7 +1336,7 @@ def _patched(world, tool_mod, argv0, argv):
         (os, "mkdir", world.mkdir, 1), (os, "makedirs", world.makedirs, 1),
         (os, "rmdir", world.rmdir, 1), (os, "access", world.access, 1),
         (posixpath, "exists", world.exists, 1),
-        (posixpath, "lexists", world.exists, 1),
+        (posixpath, "lexists", world.lexists, 1),
         (posixpath, "isfile", world.isfile, 1),
         (posixpath, "isdir", world.isdir, 1),
         (shutil, "copy2", world.copy2, 2), (shutil, "copy", world.copy, 2),
